@@ -96,7 +96,7 @@ def run(chk):
     # what the failing task raises: exceptions that the standard pickle cannot send between processes (a class defined inside a function, as
     # mesh.followPerpendicular's MaxIterException; an unpicklable attribute; a constructor with a required extra argument) -- the caller must still
     # get an exception (never block), also on the re-used object
-    for kind in ("local-class", "lambda-attribute", "two-arguments"):
+    for kind in ("local-class", "lambda-attribute", "two-arguments", "function-timed-out"):
         for nproc in (2, 3):
             for (n, order, fail) in ((1, [0], [0]), (3, [0, 1, 2], [0]), (3, [1, 0, 2], [2]), (4, [1, 0, 3, 2], [1, 3])):
                 if n == 4 and nproc == 2:
@@ -130,6 +130,8 @@ def run(chk):
                 first = sc["calls"].index(call) == 0
                 if ob == ["timeout"]:
                     key = "blocks-forever:failing-task" if call["fail"] else "blocks-forever:no-failure"
+                    if call.get("exc") == "function-timed-out":
+                        key += ":function-timed-out"
                     what = f"ParallelMap.__call__ blocked (> timeout) with np={sc['np']}, n={call['n']}, failing tasks {call['fail']}: the caller must get the serial exception"
                 elif ob[0] == "ok" and want[0] == "ok":
                     key, what = "wrong-positions", f"results returned in the wrong positions for completion order {call['order']} with np={sc['np']}"
